@@ -67,6 +67,13 @@ T["T9"] = dict(   # a forced drain competing with the objective (knocking it out
     objectives=[{"DM_B": 1}])
 
 
+T["T10"] = dict(   # uptake smaller than the capacity of a cycle whose partner runs backwards (R1 with -R3)
+    mets={"A": "c", "B": "c"},
+    rxns=[("EX_A", {"A": -1}, (-5, 0), ""), ("R1", {"A": -1, "B": 1}, (0, 10), ""),
+          ("R3", {"A": -1, "B": 1}, (-10, 10), ""), ("DM_B", {"B": -1}, (0, 10), "")],
+    objectives=[{"DM_B": 1}])
+
+
 def build(tid, coef=None):
     """build the template through the public API (add_metabolites on detached reactions,
     add_reactions).  coef: optional {(rid, mid): value} overriding stoichiometry."""
